@@ -144,6 +144,13 @@ TrialsMonotone == [][s'.trials >= s.trials /\ s'.trials <= s.trials + 1]_vars
 (* a finished solver (stop criterion true, no call in progress) makes no further trial in Solve *)
 SolveOnFinished == [][(s.pc = "solve" /\ Stop(s)) => s'.pc = "idle" /\ s'.trials = s.trials]_vars
 
+(* spec -> code replay: every behaviour that ends a DoGlobalIteration(MaxTrials) call is printed as the sequence of objective *)
+(* values the environment chose and the trial coordinates the model made; the harness feeds the values to the real solver  *)
+(* (objective = "return the k-th value") and requires its trial sequence to be one of the model's for that value sequence   *)
+EmitBehaviour == (s.pc = "idle" /\ s.trials = MaxTrials /\ Len(calls) = 1)
+                   => PrintT(<<"BEH", [j \in 1..Len(s.pts) - 2 |-> 0], [j \in 1..Len(s.evals) |-> s.evals[j][1]],
+                                     [j \in 1..Len(s.evals) |-> LET x == s.evals[j][1] IN s.pts[IndexOfX(s.pts, x)].z]>>)
+
 (* scenario generation: print the call history at every state where the user may stop (used by the harness) *)
 EmitCalls == (s.pc = "idle" /\ calls # <<>>) => PrintT(<<"CALLS", calls>>)
 =============================================================================
